@@ -56,6 +56,7 @@ try:
         X.load_enums(os.path.join(src, "src/input.rs"))
         lib = X.Mir(os.path.join(os.path.dirname(mirf), "lib.mir"))
         E.k13_input_matches(lib, rep)
+        E2.k13b_first_value_only(lib, rep)
     elif group == "e3_k8_from_reader":
         lib = X.Mir(os.path.join(os.path.dirname(mirf), "lib.mir"))
         E.k8_from_reader(lib, rep)
